@@ -108,7 +108,7 @@ func (node *UntrustedNode) Run(ctx context.Context) error {
 
 	// Queue version message to start handshake
 	version := buildVersionMsg(node.config.UserAgent, int32(node.blocks.LastHeight()))
-	node.outgoing.Add(version)
+	node.queueOutgoing(version)
 
 	go func() {
 		atomic.AddUint32(&node.incomingCount, 1)                // increment
@@ -228,7 +228,7 @@ func (node *UntrustedNode) IsReady() bool {
 func (node *UntrustedNode) BroadcastTxs(ctx context.Context, txs []*wire.MsgTx) error {
 	if node.untrustedState.IsReady() {
 		for _, tx := range txs {
-			if err := node.outgoing.Add(tx); err != nil {
+			if err := node.queueOutgoing(tx); err != nil {
 				return err
 			}
 		}
@@ -325,7 +325,7 @@ func (node *UntrustedNode) check(ctx context.Context) error {
 		if err != nil {
 			return errors.Wrap(err, "build header request")
 		}
-		if node.outgoing.Add(headerRequest) == nil {
+		if node.queueOutgoing(headerRequest) == nil {
 			node.untrustedState.MarkHeadersRequested()
 			node.untrustedState.SetHandshakeComplete()
 		}
@@ -348,7 +348,7 @@ func (node *UntrustedNode) check(ctx context.Context) error {
 
 	if !node.untrustedState.AddressesRequested() {
 		addresses := wire.NewMsgGetAddr()
-		if node.outgoing.Add(addresses) == nil {
+		if node.queueOutgoing(addresses) == nil {
 			node.untrustedState.SetAddressesRequested()
 		}
 	}
@@ -362,7 +362,7 @@ func (node *UntrustedNode) check(ctx context.Context) error {
 	node.pendingLock.Lock()
 	if len(node.pendingOutgoing) > 0 {
 		for _, tx := range node.pendingOutgoing {
-			if node.outgoing.Add(tx) != nil {
+			if node.queueOutgoing(tx) != nil {
 				break
 			}
 		}
@@ -374,7 +374,7 @@ func (node *UntrustedNode) check(ctx context.Context) error {
 		// Send mempool request
 		// This tells the peer to send inventory of all tx in their mempool.
 		mempool := wire.NewMsgMemPool()
-		if node.outgoing.Add(mempool) == nil {
+		if node.queueOutgoing(mempool) == nil {
 			node.untrustedState.SetMemPoolRequested()
 		}
 	}
@@ -392,7 +392,7 @@ func (node *UntrustedNode) TransmitMessage(msg wire.Message) bool {
 		return false
 	}
 
-	if err := node.outgoing.Add(msg); err != nil {
+	if err := node.queueOutgoing(msg); err != nil {
 		return false
 	}
 
@@ -419,6 +419,19 @@ func (node *UntrustedNode) monitorRequestTimeouts(ctx context.Context) {
 // sendOutgoing waits for and sends outgoing messages
 //
 // This is a blocking function that will run forever, so it should be run in a goroutine.
+// queueOutgoing queues a message for the peer's send thread. It never waits for the peer: what
+// calls it holds locks the trusted node needs (the peer's tx tracker, the untrusted nodes lock), so
+// a peer that reads too slowly to keep its queue from filling up is dropped instead.
+func (node *UntrustedNode) queueOutgoing(msg wire.Message) error {
+	err := node.outgoing.AddNoWait(msg)
+	if err == errChannelFull {
+		node.lock.Lock()
+		node.stopping = true
+		node.lock.Unlock()
+	}
+	return err
+}
+
 // untrustedWriteTimeout is how long a write to an untrusted peer can take before the peer is dropped.
 const untrustedWriteTimeout = 10 * time.Second
 
@@ -472,7 +485,7 @@ func (node *UntrustedNode) handleMessage(ctx context.Context, msg wire.Message) 
 
 	// Queue messages to be sent in response
 	for _, response := range responses {
-		if err := node.outgoing.Add(response); err != nil {
+		if err := node.queueOutgoing(response); err != nil {
 			return errors.Wrap(err, "add outgoing")
 		}
 	}
